@@ -640,6 +640,113 @@ func flLegendre(fset *token.FileSet, file *ast.File, dir string) string {
 	return "/-- element.go: `func (" + recv + " *Element) Legendre` -/\ndef Legendre" + flLegParams + " (" + recv + " : F) : Int :=\n" + body + "\n"
 }
 
+// The POST-CHECK of `(*Element).Inverse` (the packages whose Inverse is Pornin's optimized binary GCD: those that declare `inverseExp`):
+// the statements AFTER the last loop of the method, statement by statement — each must be, literally, the Go statement on the left of the
+// table below (any other text is fatal) — as a function of `x` and of `v`, the value the (untranslated) loops left in `v`:
+// Gen/Imp/InverseTail.lean (one text for all those packages). CHECKED: the tail reads `u` and `z` only after assigning them
+// (by construction of the table: `u.Set(x)`, `z.Mul(..)` come first), so of the loop state only `v` reaches it. PARAMETERS: mul, isZero,
+// isOne, `corr` (the composite literal of the inversionCorrectionFactorWord constants: its value is irrelevant for the theorem),
+// `inverseExp` (the method of that name).
+var flInvTail = [][2]string{
+	{"u.Set(x)", "let u := x"},
+	{"z.Mul(&v, &Element{ @CORR@ })", "let z := mul v corr"},
+	{"v.Mul(&u, z)", "let v := mul u z"},
+	{"if !v.IsOne() && !u.IsZero() { return z.inverseExp(u) }", "if (!isOne v) && (!isZero u) then\n    inverseExp u\n  else"},
+	{"return z", "z"},
+}
+
+func flInverseTail(dir string) (string, bool) {
+	fset := token.NewFileSet()
+	file, err := parser.ParseFile(fset, filepath.Join(repo, dir, "element.go"), nil, 0)
+	if err != nil {
+		die("imp/fieldloops %s: %v", dir, err)
+	}
+	var inv *ast.FuncDecl
+	hasExp := false
+	for _, d := range file.Decls {
+		if x, ok := d.(*ast.FuncDecl); ok && x.Recv != nil && x.Body != nil {
+			if x.Name.Name == "Inverse" {
+				inv = x
+			}
+			if x.Name.Name == "inverseExp" {
+				hasExp = true
+			}
+		}
+	}
+	if !hasExp {
+		return "", false
+	}
+	if inv == nil || flSrc(fset, inv.Type) != "func(x *Element) *Element" || flSrc(fset, inv.Recv.List[0].Type) != "*Element" || len(inv.Recv.List[0].Names) != 1 || inv.Recv.List[0].Names[0].Name != "z" {
+		die("imp/fieldloops %s: inverseExp is declared but Inverse is not func (z *Element) Inverse(x *Element) *Element", dir)
+	}
+	last := -1
+	for i, st := range inv.Body.List {
+		ast.Inspect(st, func(n ast.Node) bool {
+			switch n.(type) {
+			case *ast.ForStmt, *ast.RangeStmt, *ast.BranchStmt, *ast.FuncLit:
+				last = i
+			}
+			return true
+		})
+	}
+	tail := inv.Body.List[last+1:]
+	if last < 0 || len(tail) != len(flInvTail) {
+		die("imp/fieldloops %s: Inverse: %d statements after the last loop, expected %d", dir, len(tail), len(flInvTail))
+	}
+	var b strings.Builder
+	b.WriteString("/-- the statements of `(*Element).Inverse` after its last loop; `v` = the value the untranslated loops left in `v` -/\n")
+	b.WriteString("def Inverse.tail {F : Type} (mul : F → F → F) (isZero isOne : F → Bool) (corr : F) (inverseExp : F → F) (x v : F) : F :=\n")
+	for i, st := range tail {
+		want := strings.Replace(flInvTail[i][0], "@CORR@", "inversionCorrectionFactorWord0, inversionCorrectionFactorWord1", 1)
+		got := flSrc(fset, st)
+		if i == 1 { // the literal lists the correction words 0..n-1 in order, and nothing else
+			if !strings.HasPrefix(got, "z.Mul(&v, &Element{ ") || !strings.HasSuffix(got, ", })") {
+				die("imp/fieldloops %s: Inverse: statement %q is not z.Mul(&v, &Element{ correction words })", dir, got)
+			}
+			ws := strings.Split(strings.TrimSuffix(strings.TrimPrefix(got, "z.Mul(&v, &Element{ "), ", })"), ", ")
+			for j, w := range ws {
+				if w != fmt.Sprintf("inversionCorrectionFactorWord%d", j) {
+					die("imp/fieldloops %s: Inverse: word %d of the correction factor is %q", dir, j, w)
+				}
+			}
+		} else if got != want {
+			die("imp/fieldloops %s: Inverse: statement %d after the last loop is %q, expected %q", dir, i+1, got, want)
+		}
+		b.WriteString("  " + flInvTail[i][1] + "\n")
+	}
+	return b.String(), true
+}
+
+func runInverseTail() {
+	outName := "Imp/InverseTail.lean"
+	dieHook = func() { os.Remove(filepath.Join(outDir, outName)) }
+	var ref string
+	var dirs, without []string
+	for _, d := range fieldDirs {
+		t, ok := flInverseTail(d)
+		if !ok {
+			without = append(without, d)
+			continue
+		}
+		if len(dirs) > 0 && t != ref {
+			die("imp/fieldloops: the Inverse tail of %s differs from the one of %s", d, dirs[0])
+		}
+		ref = t
+		dirs = append(dirs, d)
+	}
+	if len(dirs) == 0 {
+		die("imp/fieldloops: no field package declares inverseExp")
+	}
+	var b strings.Builder
+	b.WriteString("/- GENERATED by tools/goslp (imp_fieldloops.go) on every run. DO NOT EDIT.\n")
+	fmt.Fprintf(&b, "   The statements after the last loop of (*Element).Inverse of /repo/{%s}\n   (the packages that declare inverseExp; same text checked). Without inverseExp (another Inverse, not covered): %s. -/\n", strings.Join(dirs, ", "), strings.Join(without, ", "))
+	b.WriteString("set_option linter.unusedVariables false\n\nnamespace GV.Gen.Imp.InverseTail\n\n")
+	b.WriteString(ref)
+	b.WriteString("\nend GV.Gen.Imp.InverseTail\n")
+	writeFile(outName, b.String())
+	dieHook = nil
+}
+
 func runFieldLoops() {
 	outName := "Imp/FieldLoops.lean"
 	dieHook = func() { os.Remove(filepath.Join(outDir, outName)) }
